@@ -33,7 +33,7 @@ PID = "C35"
 # ---------------------------------------------------------------------------
 # items -> Jinja source
 # ---------------------------------------------------------------------------
-VAR_TAGS = {"callm", "caller", "callimp", "raise", "badexpr", "badchar", "badclose"}
+VAR_TAGS = {"callm", "caller", "callimp", "outvar", "raise", "badexpr", "badchar", "badclose"}
 NEWLINES = {"lf": "\n", "crlf": "\r\n", "cr": "\r"}
 
 
@@ -68,6 +68,8 @@ def tag_body(it):
         return f'import "{ref}" as x{d}'
     if n == "caller":
         return "caller()"
+    if n == "outvar":
+        return "t"
     if n == "callm":
         return f"m{d}()"
     if n == "callimp":
